@@ -106,6 +106,11 @@ func BuildQuerySQL(db *gorm.DB) {
 				fromClause.Joins = append(make([]clause.Join, 0, len(v.Joins)+len(db.Statement.Joins)), v.Joins...)
 			}
 		}
+		if len(db.Statement.Joins) > 0 {
+			// how many joins the FROM clause holds by itself: AfterQuery goes back to these (one Joins call along a
+			// nested path adds more than one join)
+			db.InstanceSet("gorm:from_joins_of_its_own", len(fromClause.Joins))
+		}
 
 		if len(db.Statement.Joins) != 0 || len(fromClause.Joins) != 0 {
 			if len(db.Statement.Selects) == 0 && len(db.Statement.Omits) == 0 && db.Statement.Schema != nil {
@@ -302,7 +307,13 @@ func AfterQuery(db *gorm.DB) {
 	// clear the joins after query because preload need it
 	if v, ok := db.Statement.Clauses["FROM"].Expression.(clause.From); ok {
 		fromClause := db.Statement.Clauses["FROM"]
-		fromClause.Expression = clause.From{Tables: v.Tables, Joins: utils.RTrimSlice(v.Joins, len(db.Statement.Joins))} // keep the original From Joins
+		joins := utils.RTrimSlice(v.Joins, len(db.Statement.Joins))
+		if n, ok := db.InstanceGet("gorm:from_joins_of_its_own"); ok {
+			if kept, isInt := n.(int); isInt && kept <= len(v.Joins) {
+				joins = v.Joins[:kept]
+			}
+		}
+		fromClause.Expression = clause.From{Tables: v.Tables, Joins: joins} // keep the original From Joins
 		db.Statement.Clauses["FROM"] = fromClause
 	}
 	if db.Error == nil && db.Statement.Schema != nil && !db.Statement.SkipHooks && db.Statement.Schema.AfterFind && db.RowsAffected > 0 {
